@@ -1,6 +1,7 @@
 """C15 — script arguments, functions, `source` and exit statuses behave as documented.
 
-A. positional parameters: ALL argument lists of length 0..2 (thorough 0..3) over {x, 'a b', $, 'q', empty} x the
+A. positional parameters: ALL argument lists of length 0..2 (thorough 0..3) over {x, 'a b', $, 'q', empty; single
+   arguments and thorough also a;b a|b >f a& backslash #c} x the
    reference forms $0 $1 ${2} $3 $9 $@ "$@" p$1s "p${1}s" $1$2 '$1' in a script frame and in a function frame;
 B. functions: names f, g-h, _k x both header spellings x arities 0..2, defined in the script or in a sourced file;
 C. `source` chains of depth 1..3 that define a variable, an alias, a function and change directory;
@@ -12,12 +13,23 @@ import os
 
 from .. import common
 
-ARGS = ['x', 'a b', '$', "'q'", '']
+ARGS = ['x', 'a b', '$', "'q'", '', 'a;b', 'a|b', '>f', 'a&', '\\', '#c']
+ARGS_QUICK2 = ['x', 'a b', '$', "'q'", '']      # quick: lists of two arguments over the first five values only
+SPECIAL = [('$', 'value-with-dollar'), ('\\', 'value-with-backslash'), ("'", 'value-with-quote-character'), (';', 'value-with-semicolon'), ('|', 'value-with-pipe'), ('>', 'value-with-redirection-character'),
+           ('&', 'value-with-ampersand'), ('#', 'value-with-hash')]
 REFS = ['$0', '$1', '${2}', '$3', '$9', '$@', '"$@"', 'p$1s', '"p${1}s"', '$1$2', "'$1'"]
 
 
 def shq(a):
     return "'" + a.replace("'", "'\\''") + "'"
+
+
+def cq(a):
+    """spell an argument of a function call inside a cicada script (the shell has no 'it'\\''s' concatenation)"""
+    if "'" in a:
+        assert not any(c in a for c in '"$`\\')
+        return '"%s"' % a
+    return "'%s'" % a
 
 
 def expand_ref(ref, frame0, args):
@@ -140,12 +152,12 @@ def run(rep, tier):
     # A
     arglists = [()]
     for n in range(1, nargs + 1):
-        arglists += list(itertools.product(ARGS, repeat=n))
+        arglists += list(itertools.product(ARGS if (n == 1 or tier == 'thorough') else ARGS_QUICK2, repeat=n))
     for args in arglists:
         for ref in REFS:
             jobs.append(({'main.sh': 'vh-argv %s\n' % ref}, args, None))
             meta.append(('A', 'script', args, ref))
-            call = 'fn ' + ' '.join(shq(a) for a in args)
+            call = 'fn ' + ' '.join(cq(a) for a in args)
             jobs.append(({'main.sh': 'function fn {\n    vh-argv %s\n}\n%s\n' % (ref, call)}, (), None))
             meta.append(('A', 'function', args, ref))
     # B
@@ -204,10 +216,10 @@ def run(rep, tier):
                 dev = 'positional'
                 # the value of a positional parameter is inserted as text and parsed / expanded again: one cause for
                 # every value that contains a quote character or a dollar sign, whatever the reference form
-                if any("'" in a for a in args):
-                    dev, cls = 'positional-value-reparsed', 'value-with-quote-character'
-                elif any('$' in a for a in args):
-                    dev, cls = 'positional-value-reparsed', 'value-with-dollar'
+                for ch, name in SPECIAL:
+                    if any(ch in a for a in args):
+                        dev, cls = 'positional-value-reparsed', name
+                        break
         elif m[0] == 'B':
             _, where, name, arity = m
             exp = [[name] + ['c%d' % k for k in range(arity)] + [''] * (2 - arity)]
